@@ -21,10 +21,13 @@ def raw(size=1000, fill=0x00, **kw):
 
 
 def qcow2(size=10 * K * K, version=3, bf_offset=0, features=0, magic=b'QFI\xfb', cluster_bits=16,
-          bf_size=0, body=b'', total=1024, compat=0, autoclear=0, header_fill=0, **kw):
+          bf_size=0, body=b'', total=1024, compat=0, autoclear=0, header_fill=0, refcount_order=None,
+          header_length=None, **kw):
     h = struct.pack('>4sIQIIQ', magic, version, bf_offset, bf_size, cluster_bits, size)
     h = pad(h, 72, bytes([header_fill]))
     h += struct.pack('>QQQ', features, compat, autoclear)
+    if refcount_order is not None or header_length is not None:      # v3 fields at 96 / 100 (default: fill)
+        h += struct.pack('>II', refcount_order or 0, header_length or 0)
     img = pad(h, 512, bytes([header_fill])) + body
     img = pad(img, total)
     return img, [4, 8, 16, 24, 32, 72, 80, 104, 511, 512, 513]
